@@ -8,7 +8,7 @@ opts (all optional):
   presim: number of earlier simulate() calls on the same object before the observed one (presim_absence, presim_cut: their absence list / max_time);
   resume_from: k -> simulate(max_time=k) first, the observed run resumes it (state/log initialisation off, or restart_flags=(state, log));
   build_from + edit: objects built from spec `build_from`, run `presim` times, then edited in place (mc/edits.py) into `spec`;
-  post_insert: list -> insert_absence_time_list(list) after the run; post_remove: remove_absence_time_list() after the run ("after-insert": after the post_insert); reload: write/read JSON after the run and look at the loaded project;
+  post_insert: list -> insert_absence_time_list(list) after the run; post_remove: remove_absence_time_list() after the run ("after-insert": after the post_insert); post_reverse: n calls of project.reverse_log_information() after the run; reload: write/read JSON after the run and look at the loaded project;
   unit_time: passed to simulate(); backward: observe backward_simulate() instead (options due, rev);
   flags: (state, log) initialisation flags of the observed call on a never-simulated model; error_tol: passed to simulate();
   presim_back: number of earlier backward_simulate() calls on the same object (presim_back_rev=False: with reverse_log_information=False);
@@ -263,7 +263,7 @@ def run(spec, opts=None, model=None, call=None):
     finally:
         bootstrap.clear_observer()
         del S.PLACEMENT_LOG[:]
-    if ex.error is None and (opts.get("post_insert") or opts.get("reload") or opts.get("post_remove")):
+    if ex.error is None and (opts.get("post_insert") or opts.get("reload") or opts.get("post_remove") or opts.get("post_reverse")):
         try:
             if opts.get("post_remove") and opts.get("post_remove") != "after-insert":
                 ex.m.project.remove_absence_time_list()
@@ -271,6 +271,8 @@ def run(spec, opts=None, model=None, call=None):
                 ex.m.project.insert_absence_time_list(list(opts["post_insert"]))
             if opts.get("post_remove") == "after-insert":
                 ex.m.project.remove_absence_time_list()  # (the stored list may by now name steps that were worked)
+            for _ in range(int(opts.get("post_reverse") or 0)):
+                ex.m.project.reverse_log_information()  # the public log reversal called by hand on the result
             if opts.get("reload"):
                 import os
                 import tempfile
